@@ -574,6 +574,10 @@ def point_strategy(draw):
     extras = {}
     if n_extra:
         names = draw(st.lists(st.sampled_from(_EXTRA_NAMES), min_size=n_extra, max_size=n_extra, unique=True))
+        if n_extra >= 2 and draw(st.sampled_from([False, False, True])):
+            # two channels whose names differ by case only (t / T, time / Time), in either order
+            twin = names[0].swapcase() if names[0].swapcase() != names[0] else names[0] + "T"
+            names[1] = twin if twin not in names else names[1]
         for name in names:
             kind = draw(st.sampled_from(["float", "text", "int", "float", "float_gaps", "float_unmeasured"]))
             # float_gaps: a channel with missing readings (None in the descriptor = NaN in the table); float_unmeasured: a
